@@ -453,7 +453,10 @@ func (c *CheckCtx) writeEvidence(nviol int) {
 		"seed":        c.Seed,
 		"level":       c.P.Level,
 		"coverage":    cov,
-		"assumptions": c.P.Assume,
+		"assumptions": append([]string{
+			"go/ssa translation of the Go source is faithful; gosym's interpreter and the stubs listed under coverage.stubs model the replaced library code correctly (checked by native replay of reach witnesses)",
+			"claims hold only within coverage.bounds / the shapes enumerated by the harness; out-of-memory and stack exhaustion are outside every claim",
+		}, c.P.Assume...),
 		"wall_s":      round3(time.Since(c.T0).Seconds()),
 		"violations":  nviol,
 	}
